@@ -12,6 +12,7 @@ from decimal import Decimal
 from fractions import Fraction
 from typing import Any, Dict, List, Optional
 
+from rpv import families
 from rpv.checks.inproc_util import candidate_days, clean_cut, get_ip, sched_from_json, sched_json
 from rpv.gen import METHODS, Profile, dstr, history, q11
 from rpv.model import Model
@@ -23,7 +24,7 @@ PROPERTY_ID = "C07"
 LEVEL = "exploration"
 RULE = (
     "valid generated histories over 2-4 exchanges and 1-2 holders (joint filing), self transfers, transfers into "
-    "never-funded accounts, x {no to-date, to-dates} x {-n off, -n on: for a valid history it changes nothing} x from-dates (never change balances) x methods; plus overdrawn mutants run with -n, with and without a to-date. Reported acquired / "
+    "never-funded accounts, batched withdrawals (2-4 transfers between the same two accounts under one unique id), x {no to-date, to-dates} x {-n off, -n on: for a valid history it changes nothing} x from-dates (never change balances) x methods; plus overdrawn mutants run with -n, with and without a to-date. Reported acquired / "
     "sent / received / final vs exact sums over the input rows, and sum of finals vs lots minus consumption in the observed "
     "trace. Non-trivial = >= 3 accounts touched and >= 1 transfer; distinct = hash of (history, to-date, -n). "
     "The repository's own example inputs (input/*.ods read independently of RP2's parser, every method and the config's schedule, -n) are part of the workload"
@@ -34,8 +35,8 @@ ASSUMPTIONS = [
     "with -n the lots must still cover the disposals (otherwise the run fails: C02), so -n mutants overdraw one account while another holds the coins",
 ]
 SETTINGS: Dict[str, Dict[str, Any]] = {
-    "quick": {"cases": 2000, "cli_cases": 48, "budget_s": 45, "minimums": {"corpus_runs": 100, "to_date_runs_with_negative_balances_allowed": 500, "accounts_checked": 8000, "nontrivial": 800, "negative_runs": 100, "cli_runs": 5}},
-    "thorough": {"cases": 80000, "cli_cases": 150, "budget_s": 300, "minimums": {"corpus_runs": 100, "accounts_checked": 300000, "nontrivial": 30000, "negative_runs": 4000, "cli_runs": 100}},
+    "quick": {"cases": 2000, "cli_cases": 48, "budget_s": 45, "minimums": {"corpus_runs": 100, "to_date_runs_with_negative_balances_allowed": 500, "accounts_checked": 8000, "nontrivial": 800, "negative_runs": 100, "cli_runs": 5, "histories_with_transfers_repeating_a_unique_id": 60}},
+    "thorough": {"cases": 80000, "cli_cases": 150, "budget_s": 300, "minimums": {"corpus_runs": 100, "accounts_checked": 300000, "nontrivial": 30000, "negative_runs": 4000, "cli_runs": 100, "histories_with_transfers_repeating_a_unique_id": 4000}},
 }
 PROFILES = [
     Profile(n_exchanges=2, n_holders=2, p_intra=0.35, p_self_transfer=0.1, max_events=20, min_events=5),
@@ -111,6 +112,12 @@ def run_shard(ctx: Any) -> None:
     while done < share and (ctx.budget_s - ctx.time_left()) < ctx.budget_s * 0.75:
         rng = ctx.rng("case", index)
         hist = history(rng, deepen(ctx, index, PROFILES[index % len(PROFILES)]))
+        if index % 16 == 9:
+            hist = families.batched_transfers(rng)
+            ctx.count("histories_with_transfers_repeating_a_unique_id")
+        elif index % 4 == 1 and families.share_transfer_ids(hist, rng):
+            # batched withdrawals: several transfers between the same two accounts carry one transaction hash
+            ctx.count("histories_with_transfers_repeating_a_unique_id")
         if is_valid(Model(hist)):
             sched = {1970: rng.choice(METHODS)}
             _observe(ctx, ip, hist, sched, None, rng.random() < 0.2)
@@ -164,5 +171,6 @@ def coverage(merged: Dict[str, Any], tier: str) -> Dict[str, Any]:
             "runs_with_-n": c.get("negative_runs", 0),
             "runs_reporting_a_negative_balance": c.get("negative_balances_reported", 0),
             "cli_runs": c.get("cli_runs", 0),
+            "histories_with_transfers_repeating_a_unique_id": c.get("histories_with_transfers_repeating_a_unique_id", 0),
         },
     }
